@@ -543,6 +543,15 @@ impl Server {
                     let keys = blocked.keys.iter().map(|(_, key)| key.clone()).collect();
                     self.blocking_manager.reinstate_blocked(
                         wakeup.db, wakeup.conn_id, keys, blocked.op_type.clone(), blocked.deadline, wakeup.blocked_at)?;
+                    
+                    // The wake-up had taken the client off all its keys, so an element pushed to
+                    // one of the others in the meantime woke nobody: every key of this client
+                    // that holds elements now is handed to the first client waiting on it.
+                    for (_, key) in &blocked.keys {
+                        if self.storage.llen(wakeup.db, key).unwrap_or(0) > 0 {
+                            self.blocking_manager.notify_key_ready(wakeup.db, key);
+                        }
+                    }
                     Ok(true)
                 }
             }
